@@ -242,6 +242,11 @@ Proof.
   exists c, w. repeat split; auto. eapply forallb_impl; [|exact H2]. apply impl_bytes. bytes_check.
 Qed.
 
+Lemma n12 d : d <= 2 -> d <> 0 -> d = 1 \/ d = 2.
+Proof. lia. Qed.
+Lemma le02 : 0 <= 2.
+Proof. lia. Qed.
+
 Lemma dtxt_head d x : d <= 2 -> d <> 0 -> is 40 (peek (dtxt d ++ x)) = true.
 Proof. intros Hd Hn. assert (Hc : d = 1 \/ d = 2) by lia. destruct Hc as [ -> | -> ]; reflexivity. Qed.
 
@@ -264,19 +269,19 @@ Proof.
   { destruct (N.eq_dec d 0) as [Hd0|Hd0].
     - rewrite Hd0. cbn [dtxt N.eqb app]. destruct Hs as [ -> | [ -> | -> ] ]; cbn [ptxt N.eqb Pos.eqb app]; [|right; reflexivity|right; reflexivity].
       destruct r; [now left|right; exact Rf].
-    - right. assert (Hc2 : d = 1 \/ d = 2) by lia. destruct Hc2 as [ -> | -> ]; reflexivity. }
+    - right. destruct (n12 d Hd Hd0) as [ -> | -> ]; reflexivity. }
   change (c :: w ++ dtxt d ++ ptxt s ++ r) with ((c :: w) ++ dtxt d ++ ptxt s ++ r). rewrite <- Hfl in *.
   rewrite (span_exact is_useflag_char (ua_flag u)); [|exact Hfw|exact Hstop].
   destruct (N.eq_dec d 0) as [Hd0|Hd0].
   - rewrite Hd0. cbn [dtxt N.eqb app].
     rewrite use_suffix_print; [|exact Hs|intros _; auto].
-    change r with (dtxt 0 ++ r) at 1. rewrite use_default_print; [|lia|intros _; exact R40].
+    change r with (dtxt 0 ++ r) at 1. rewrite use_default_print; [|exact le02|intros _; exact R40].
     destruct (s =? 0) eqn:Es0.
     + apply N.eqb_eq in Es0. rewrite Es0 in *. change r with (ptxt 0 ++ r) at 1.
       rewrite use_suffix_print; [|auto|intros _; auto]. rewrite Ht. reflexivity.
     + rewrite Ht. reflexivity.
   - assert (E1 : use_suffix (dtxt d ++ ptxt s ++ r) = (0, dtxt d ++ ptxt s ++ r)).
-    { assert (Hc2 : d = 1 \/ d = 2) by lia. destruct Hc2 as [ -> | -> ]; reflexivity. }
+    { destruct (n12 d Hd Hd0) as [ -> | -> ]; reflexivity. }
     rewrite E1. rewrite use_default_print; [|exact Hd|congruence]. cbn [N.eqb].
     rewrite use_suffix_print; [|exact Hs|intros _; auto]. rewrite Ht. reflexivity.
 Qed.
